@@ -235,7 +235,19 @@ def rule_raw_advance(run, prog):
              "discarded)", floor=2)
     n = 0
     for fn in prog.functions_in("lexer/lexer.py"):
-        if fn.name in ("pop", "__init__"):
+        if fn.name == "__init__":
+            # the constructor only places the cursor at the start: a store of anything but the constant 0 skips text unseen
+            for st in walk_fn(fn.node):
+                tg = [st.target] if isinstance(st, (ast.AugAssign, ast.AnnAssign)) else st.targets if isinstance(st, ast.Assign) else []
+                if any(text(t).endswith("__pos") for t in tg):
+                    from ..fold import try_fold
+                    v = try_fold(st.value, fn.mod, None, default=None) if isinstance(st, (ast.Assign, ast.AnnAssign)) and st.value is not None else None
+                    run.ob("R-10.2", f"{fn.key}::initial-position[{text(st, 40)}]", isinstance(st, (ast.Assign, ast.AnnAssign)) and v == 0
+                           and type(v) is int,
+                           "the constructor moves the cursor past the beginning of the source: the skipped text is in no token and in "
+                           "no BAD_LEXEME diagnostic", st)
+            continue
+        if fn.name == "pop":
             continue
         g = cfg_of(fn)
         for st in walk_fn(fn.node):
